@@ -1952,6 +1952,7 @@ func (i *invocation) decrementExecutingWorkersCount(bq *InMemoryBuildQueue, w *w
 			break
 		}
 		heapMaybeFix(&i.parent.queuedChildren, i.queuedChildrenIndex)
+		i.parent.updateFirstOperationPriority()
 		heapMaybeFix(&i.parent.idleSynchronizingWorkersChildren, i.idleSynchronizingWorkersChildrenIndex)
 		i.removeIfEmpty()
 		i = i.parent
@@ -1969,6 +1970,7 @@ func (i *invocation) incrementExecutingWorkersCount(bq *InMemoryBuildQueue, w *w
 			break
 		}
 		heapMaybeFix(&i.parent.queuedChildren, i.queuedChildrenIndex)
+		i.parent.updateFirstOperationPriority()
 		heapMaybeFix(&i.parent.idleSynchronizingWorkersChildren, i.idleSynchronizingWorkersChildrenIndex)
 		i = i.parent
 	}
